@@ -241,12 +241,19 @@ def pipeline_case(draw):
     colset_choice = draw(st.integers(0, 1))
     for j in range(ncols):
         k = draw(st.integers(1, 5))
-        vals = draw(st.lists(st.sampled_from(['a', 'b', 'c', 'd', '', '{}', 'e f', 'a ', ' a', '12', '2']), min_size=k, max_size=k,
-                             unique=True))
+        vals = draw(st.lists(st.sampled_from(['a', 'b', 'c', 'd', '', '{}', 'e f', 'a ', ' a', '12', '2', 'x\ty', '"q"', 'say "hi"']), min_size=k, max_size=k,
+                             unique=True))      # free text may hold a tab or quotes
         cols[[['f1', 'f11', 'f2'], ['terms AND conditions', 'f11', 'x AND_REL y']][colset_choice][j]] = {'vals': vals, 'seed': draw(st.integers(0, 2**32 - 1)), 'rare': draw(st.lists(st.integers(0, rows - 1), max_size=3))}
     cols['label'] = {'vals': ['0', '1'], 'seed': draw(st.integers(0, 2**32 - 1)), 'rare': []}
     case = {'seq': {'n': rows, 'cols': cols}, 'ms': sorted(ms), 'task': draw(st.sampled_from(['ranking', 'identify_rare_values'])),
             'bound': draw(st.sampled_from([0, 0, 1, 2, 4])), 'hist_bound': draw(st.sampled_from([2, 3, 30_000]))}
+    if colset_choice == 0 and draw(st.integers(0, 3)) == 0:
+        # a described csv source (dataset_desc.json) that types the first column as float; its cells are numerals in several spellings,
+        # zero, and missing symbols - the statistics are about the cells as they stand in the file
+        first = next(iter(cols))
+        k = draw(st.integers(2, 6))
+        cols[first]['vals'] = draw(st.lists(st.sampled_from(['12', '2', '012', '2.0', '0', '', '{}', '1e1', '0.0', '7']), min_size=k, max_size=k, unique=True))
+        case['typed'] = [first]
     # names with or without the "(cardinality; coverage)" annotation: the bookkeeping behind the other outputs must not depend on it
     case['annot'] = draw(st.sampled_from([True, True, False]))
     if colset_choice == 0 and ncols == 3 and case['task'] == 'ranking' and draw(st.booleans()):
@@ -259,7 +266,7 @@ def pipeline_case(draw):
 def run_task(cols, names, m, case, tmp):
     out = os.path.join(tmp, f'out{m}')
     args = stubs.make_args(task=case['task'], minibatch_size=int(m), subsampling=1, data_path=os.path.join(tmp, 'data'),
-                           data_source='csv-raw', output_folder=out, heuristic='MI-numba-randomized',
+                           data_source='ob-csv' if case.get('typed') else 'csv-raw', output_folder=out, heuristic='MI-numba-randomized',
                            rare_value_count_upper_bound=int(case['bound']), max_unique_hist_constraint=int(case['hist_bound']),
                            include_cardinality_in_feature_names='False' if case.get('annot') is False else 'True',
                            **({'interaction_order': int(case['order']), 'combination_number_upper_bound': int(case['cap'])}
@@ -289,6 +296,10 @@ def oracle_pipeline(case, rec):
             w.writerow(names)
             for i in range(n):
                 w.writerow([cols[c][i] for c in names])
+        if case.get('typed'):
+            with open('data/dataset_desc.json', 'w') as fh:
+                json.dump({'data_features': [{'name': c, 'type': 'float' if c in case['typed'] else 'str'} for c in names]}, fh)
+            rec.cls('described-source-with-float-column')
         tr.Pool = lambda k=None: stubs.InlinePool()
         miss = {'', '{}'}
         for m in case['ms']:
@@ -343,8 +354,17 @@ def oracle_pipeline(case, rec):
                         continue
                     raise Violation(f'minibatch_size {m}: rare_values.tsv was not written ({len(exp_rows)} rare pairs expected)',
                                     kind='C13/rare-report-empty' if not exp_rows else 'C13/rare-report')
-                got = pd.read_csv(path, sep='\t', keep_default_na=False, na_values=[], dtype=str)
-                got_rows = {(r.Namespace, r.value): int(r.Count) for r in got.itertuples()}
+                with open(path, newline='', encoding='utf-8') as fh:
+                    table = list(csv.reader(fh, delimiter='\t'))
+                bad = [r for r in table[1:] if len(r) != 3]
+                if bad or not table or len(table[0]) != 3:
+                    raise Violation(f'minibatch_size {m}: rare_values.tsv is not a three-column tab-separated table: header {table[:1]}, '
+                                    f'malformed rows {bad[:3]}', kind='C13/rare-report')
+                hdr = table[0]
+                ci = {nm: hdr.index(nm) for nm in ('Namespace', 'value', 'Count')} if all(nm in hdr for nm in ('Namespace', 'value', 'Count')) else None
+                if ci is None:
+                    raise Violation(f'minibatch_size {m}: rare_values.tsv has header {hdr}', kind='C13/rare-report')
+                got_rows = {(r[ci['Namespace']], r[ci['value']]): int(r[ci['Count']]) for r in table[1:]}
                 if got_rows != exp_rows:
                     extra = {k: v for k, v in got_rows.items() if exp_rows.get(k) != v}
                     lack = {k: v for k, v in exp_rows.items() if k not in got_rows}
